@@ -47,7 +47,7 @@ func devRun(args []string) {
 	solver := fs.String("solver", "z3", "solver")
 	fs.Parse(args)
 	repo := envOr("VERIF_REPO", "/repo")
-	P, err := interp.Load(repo, module, envOr("VERIF_HARNESS", "/verif/harness"), loadPkgs())
+	P, err := interp.Load(repo, module, envOr("VERIF_HARNESS", verifDir+"/harness"), loadPkgs())
 	if err != nil {
 		fmt.Fprintln(os.Stderr, err)
 		os.Exit(2)
@@ -135,12 +135,12 @@ func replayMain(args []string) int {
 		return 2
 	}
 	repo := envOr("VERIF_REPO", "/repo")
-	P, err := interp.Load(repo, module, envOr("VERIF_HARNESS", "/verif/harness"), loadPkgs())
+	P, err := interp.Load(repo, module, envOr("VERIF_HARNESS", verifDir+"/harness"), loadPkgs())
 	if err != nil {
 		fmt.Fprintln(os.Stderr, err)
 		return 2
 	}
-	work := fmt.Sprintf("/verif/.work/replay-%d", os.Getpid())
+	work := fmt.Sprintf("%s/.work/replay-%d", verifDir, os.Getpid())
 	defer os.RemoveAll(work)
 	res, log, err := replayNative(P, []*interp.Witness{&w}, work)
 	if err != nil {
